@@ -101,7 +101,7 @@ def strategy(tier):
     long_dict = st.lists(st.tuples(S['r_int'], S['leaf']).map(list), min_size=45, max_size=60).map(lambda kv: ['dict', kv])
     value = st.one_of(S['value'], S['value'], S['value'], S['value'], S['value'], S['value'], long_seq, long_dict,
                       st.tuples(long_seq, S['value']).map(lambda p: ['list', [p[0], p[1]]]))
-    return st.fixed_dictionaries({'v': value, 'cfg': S['cfg']})
+    return st.fixed_dictionaries({'v': value, 'cfg': st.tuples(S['cfg'], S['neutral']).map(lambda p: dict(p[0], **p[1]))})
 
 
 def oracle(case):
